@@ -218,6 +218,11 @@ def mapE {α β : Type} (f : α → R β) : List α → R (List β)
       | .error e => .error e
       | .ok ys => .ok (y :: ys)
 
+/-- a run of `if cond { return err }` statements: the first condition that holds decides the error -/
+def firstErr : List (Bool × String) → Option String
+  | [] => none
+  | (c, e) :: rest => if c then some e else firstErr rest
+
 -- ---------------------------------------------------------------- policy fields (ss2022/policy.go)
 
 /-- `*PolicyField.UnmarshalText` at JSON decoding time followed by `.Policy()`:
@@ -274,22 +279,29 @@ def Proto.clientUDP : Proto → Bool
   | .direct | .none_ | .socks5 | .ss128 | .ss256 => true
   | _ => false
 
+/-- the checks of `ClientConfig.Initialize`, `TCPClient`, `UDPClient`, in order -/
+def Client.checks (c : Client) : List (Bool × String) :=
+  [ (!networkOK c.network, "client-network"),
+    (!c.addressesOK, "client-address"),
+    (c.proto = .socks5 && c.s5auth && !(lenOK c.s5userLen && lenOK c.s5passLen), "client-socks5-auth"),
+    (c.proto.isSS && !pskOK c.proto c.pskLen c.ipskLens, "client-psk"),
+    (c.proto.isSS && !filterSizeOK C18.clientFilterSizeMax c.filterSize, "client-filter-size"),
+    (c.enableTCP && !c.proto.clientTCP, "client-protocol"),
+    (c.enableUDP && decide (c.mtu < (C18.clientMTUMin : Int)), "client-mtu"),
+    (c.enableUDP && !c.proto.clientUDP, "client-protocol") ]
+
+def Client.eff (c : Client) : EffClient :=
+  let ssu := c.proto.isSS && c.enableUDP
+  { name := c.name, network := if c.network = "" then "ip" else c.network,
+    tcp := c.enableTCP, udp := c.enableUDP,
+    padding := if ssu then paddingOf c.padding else none,
+    filterSize := if ssu then some (effFilterSize c.filterSize) else none }
+
 /-- `ClientConfig.Initialize`, `TCPClient`, `UDPClient` -/
 def checkClient (c : Client) : R EffClient :=
-  if !networkOK c.network then .error "client-network"
-  else if !c.addressesOK then .error "client-address"
-  else if c.proto = .socks5 && c.s5auth && !(lenOK c.s5userLen && lenOK c.s5passLen) then .error "client-socks5-auth"
-  else if c.proto.isSS && !pskOK c.proto c.pskLen c.ipskLens then .error "client-psk"
-  else if c.proto.isSS && !filterSizeOK C18.clientFilterSizeMax c.filterSize then .error "client-filter-size"
-  else if c.enableTCP && !c.proto.clientTCP then .error "client-protocol"
-  else if c.enableUDP && decide (c.mtu < (C18.clientMTUMin : Int)) then .error "client-mtu"
-  else if c.enableUDP && !c.proto.clientUDP then .error "client-protocol"
-  else
-    let ssu := c.proto.isSS && c.enableUDP
-    .ok { name := c.name, network := if c.network = "" then "ip" else c.network,
-          tcp := c.enableTCP, udp := c.enableUDP,
-          padding := if ssu then paddingOf c.padding else none,
-          filterSize := if ssu then some (effFilterSize c.filterSize) else none }
+  match firstErr c.checks with
+  | some e => .error e
+  | none => .ok c.eff
 
 /-- the client added by `Manager` when `clients` is empty -/
 def defaultClient : Client :=
@@ -365,25 +377,28 @@ def checkUnique (code : String) : List String → List String → R Unit
 def defaultClientOK (name : String) (names : List String) : Bool :=
   name = "reject" || name = "" || names.contains name
 
-/-- `RouteConfig.Route`, the checks up to the construction of the criteria -/
-def checkRoute (rt : Route) (resolvers tcp udp servers domainSets prefixSets : List String) : R Unit :=
-  if rt.name = "" || rt.name = "default" then .error "route-name"
-  else if rt.fromGeo || rt.toGeo || rt.toMatchedGeo then .error "route-geoip"
-  else if resolvers.isEmpty &&
+/-- `RouteConfig.Route`, the checks up to the construction of the criteria, in order -/
+def Route.checks (rt : Route) (resolvers tcp udp servers domainSets prefixSets : List String) : List (Bool × String) :=
+  [ (rt.name = "" || rt.name = "default", "route-name"),
+    (rt.fromGeo || rt.toGeo || rt.toMatchedGeo, "route-geoip"),
+    (resolvers.isEmpty &&
       (rt.toMatchedPrefixes || !rt.toMatchedPrefixSets.isEmpty ||
-        (!rt.disableNameRes && (rt.toPrefixes || !rt.toPrefixSets.isEmpty))) then .error "route-no-resolvers"
-  else if !rt.toDomains && rt.toDomainSets.isEmpty && (rt.toMatchedPrefixes || !rt.toMatchedPrefixSets.isEmpty) then
-    .error "route-no-domain-criteria"
-  else if rt.resolver ≠ "" && !resolvers.contains rt.resolver then .error "route-resolver-notfound"
-  else if !(rt.network = "" || rt.network = "tcp" || rt.network = "udp") then .error "route-network"
-  else if rt.client ≠ "reject" && (rt.network = "" || rt.network = "tcp") && !tcp.contains rt.client then .error "route-tcp-notfound"
-  else if rt.client ≠ "reject" && (rt.network = "" || rt.network = "udp") && !udp.contains rt.client then .error "route-udp-notfound"
-  else if !rt.fromServers.all servers.contains then .error "route-server-notfound"
-  else if !rt.fromPrefixSets.all prefixSets.contains then .error "route-prefixset-notfound"
-  else if !rt.toDomainSets.all domainSets.contains then .error "route-domainset-notfound"
-  else if (rt.toDomains || !rt.toDomainSets.isEmpty) && !rt.toMatchedPrefixSets.all prefixSets.contains then .error "route-prefixset-notfound"
-  else if !rt.toPrefixSets.all prefixSets.contains then .error "route-prefixset-notfound"
-  else .ok ()
+        (!rt.disableNameRes && (rt.toPrefixes || !rt.toPrefixSets.isEmpty))), "route-no-resolvers"),
+    (!rt.toDomains && rt.toDomainSets.isEmpty && (rt.toMatchedPrefixes || !rt.toMatchedPrefixSets.isEmpty), "route-no-domain-criteria"),
+    (rt.resolver ≠ "" && !resolvers.contains rt.resolver, "route-resolver-notfound"),
+    (!(rt.network = "" || rt.network = "tcp" || rt.network = "udp"), "route-network"),
+    (rt.client ≠ "reject" && (rt.network = "" || rt.network = "tcp") && !tcp.contains rt.client, "route-tcp-notfound"),
+    (rt.client ≠ "reject" && (rt.network = "" || rt.network = "udp") && !udp.contains rt.client, "route-udp-notfound"),
+    (!rt.fromServers.all servers.contains, "route-server-notfound"),
+    (!rt.fromPrefixSets.all prefixSets.contains, "route-prefixset-notfound"),
+    (!rt.toDomainSets.all domainSets.contains, "route-domainset-notfound"),
+    ((rt.toDomains || !rt.toDomainSets.isEmpty) && !rt.toMatchedPrefixSets.all prefixSets.contains, "route-prefixset-notfound"),
+    (!rt.toPrefixSets.all prefixSets.contains, "route-prefixset-notfound") ]
+
+def checkRoute (rt : Route) (resolvers tcp udp servers domainSets prefixSets : List String) : R Unit :=
+  match firstErr (rt.checks resolvers tcp udp servers domainSets prefixSets) with
+  | some e => .error e
+  | none => .ok ()
 
 def checkRoutes (resolvers tcp udp servers domainSets prefixSets : List String) : List Route → R Unit
   | [] => .ok ()
@@ -436,6 +451,11 @@ def capDefault (x : Int) : Option Int :=
 def natTooSmall (nat min : Int) : Bool :=
   if C18.natTimeoutRejectsEqual then decide (nat ≤ min) else decide (nat < min)
 
+/-- the NAT timeout switch of `UDPListenerConfig.Configure`: zero selects the default, a value below the
+    session server's minimum is refused -/
+def natEff (minNat nat : Int) : Option Int :=
+  if nat = 0 then some C18.natTimeoutDefault else if natTooSmall nat minNat then none else some nat
+
 /-- `UDPListenerConfig.Configure` -/
 def checkUL (minNat : Int) (l : UL) : R EffUL :=
   if !(l.network = "udp" || l.network = "udp4" || l.network = "udp6") then .error "udp-listener-network"
@@ -446,11 +466,9 @@ def checkUL (minNat : Int) (l : UL) : R EffUL :=
       | none => .error "udp-recv-batch"
       | some sb => match capDefault l.sendCap with
         | none => .error "udp-send-capacity"
-        | some cc =>
-          if l.natTimeout = 0 then
-            .ok { batchMode := l.batchMode, relayBatch := rb, recvBatch := sb, sendCap := cc, natTimeout := C18.natTimeoutDefault }
-          else if natTooSmall l.natTimeout minNat then .error "nat-timeout"
-          else .ok { batchMode := l.batchMode, relayBatch := rb, recvBatch := sb, sendCap := cc, natTimeout := l.natTimeout }
+        | some cc => match natEff minNat l.natTimeout with
+          | none => .error "nat-timeout"
+          | some nt => .ok { batchMode := l.batchMode, relayBatch := rb, recvBatch := sb, sendCap := cc, natTimeout := nt }
 
 /-- protocols `TCPRelay` knows -/
 def Proto.serverTCP : Proto → Bool
@@ -469,36 +487,45 @@ def upskOK (p : Proto) : Upsk → Bool
   | .missing => false
   | .keys l => pskLenFor p = some l
 
+/-- the checks of `ServerConfig.Initialize` and of `TCPRelay` before the listeners are configured -/
+def Server.initChecks (s : Server) : List (Bool × String) :=
+  [ (s.proto = .direct && !s.tunnel.valid, "server-tunnel"),
+    (s.proto = .http && s.httpTLS && !s.httpCertList, "server-http-tls"),
+    (s.proto.isSS && !pskOK s.proto s.pskLen [], "server-psk"),
+    (s.proto.isSS && !filterSizeOK C18.serverFilterSizeMax s.filterSize, "server-filter-size"),
+    (!s.allTCP.isEmpty && !s.proto.serverTCP, "server-protocol"),
+    (!s.allTCP.isEmpty && s.proto = .http && s.httpCertList, "server-http-certlist") ]
+
+/-- the checks of `UDPRelay` before the listeners are configured -/
+def Server.udpChecks (s : Server) : List (Bool × String) :=
+  [ (!s.allUDP.isEmpty && decide (s.mtu < (C18.serverMTUMin : Int)), "server-mtu"),
+    (!s.allUDP.isEmpty && s.proto = .direct && C18.directTargetOnlyRequiresIP && s.targetOnly && s.tunnel ≠ .ip, "server-targetonly"),
+    (!s.allUDP.isEmpty && !s.proto.serverUDP, "server-protocol") ]
+
+def Server.eff (s : Server) (uls : List EffUL) : EffServer :=
+  let sst := s.proto.isSS && !s.allTCP.isEmpty
+  let ssu := s.proto.isSS && !s.allUDP.isEmpty
+  { name := s.name, proto := s.proto, tcp := s.allTCP.length, udp := uls,
+    reject := if sst then rejectOf s.reject else none,
+    padding := if ssu then paddingOf s.padding else none,
+    filterSize := if ssu then some (effFilterSize s.filterSize) else none }
+
 /-- `ServerConfig.Initialize`, `TCPRelay`, `UDPRelay`, `PostInit` -/
 def checkServer (s : Server) : R EffServer :=
-  -- Initialize
-  if s.proto = .direct && !s.tunnel.valid then .error "server-tunnel"
-  else if s.proto = .http && s.httpTLS && !s.httpCertList then .error "server-http-tls"
-  else if s.proto.isSS && !pskOK s.proto s.pskLen [] then .error "server-psk"
-  else if s.proto.isSS && !filterSizeOK C18.serverFilterSizeMax s.filterSize then .error "server-filter-size"
-  -- TCPRelay
-  else if !s.allTCP.isEmpty && !s.proto.serverTCP then .error "server-protocol"
-  else if !s.allTCP.isEmpty && s.proto = .http && s.httpCertList then .error "server-http-certlist"
-  else match mapE checkTL s.allTCP with
+  match firstErr s.initChecks with
+  | some e => .error e
+  | none =>
+    match mapE checkTL s.allTCP with
     | .error e => .error e
     | .ok _ =>
-      -- UDPRelay
-      if !s.allUDP.isEmpty && decide (s.mtu < (C18.serverMTUMin : Int)) then .error "server-mtu"
-      else if !s.allUDP.isEmpty && s.proto = .direct && C18.directTargetOnlyRequiresIP && s.targetOnly && s.tunnel ≠ .ip then
-        .error "server-targetonly"
-      else if !s.allUDP.isEmpty && !s.proto.serverUDP then .error "server-protocol"
-      else match mapE (checkUL (minNatOf s.proto)) s.allUDP with
+      match firstErr s.udpChecks with
+      | some e => .error e
+      | none =>
+        match mapE (checkUL (minNatOf s.proto)) s.allUDP with
         | .error e => .error e
         | .ok uls =>
-          -- PostInit
           if s.proto.isSS && !upskOK s.proto s.upsk then .error "server-upsk-store"
-          else
-            let sst := s.proto.isSS && !s.allTCP.isEmpty
-            let ssu := s.proto.isSS && !s.allUDP.isEmpty
-            .ok { name := s.name, proto := s.proto, tcp := s.allTCP.length, udp := uls,
-                  reject := if sst then rejectOf s.reject else none,
-                  padding := if ssu then paddingOf s.padding else none,
-                  filterSize := if ssu then some (effFilterSize s.filterSize) else none }
+          else .ok (s.eff uls)
 
 -- ---------------------------------------------------------------- Manager
 
